@@ -41,6 +41,8 @@ use crate::{
 };
 
 mod path_state;
+#[cfg(iroh_verif)]
+pub(crate) use self::path_state::verif_c23;
 mod path_watcher;
 mod remote_info;
 
